@@ -211,11 +211,76 @@ pub fn run(ctx: &Ctx) -> Result<(), String> {
     if let Some(e) = failed.lock().unwrap().take() {
         return Err(e);
     }
+    // the real server binary started under several local time zones: the midpoint is the clock in
+    // the protocol's unit since the Unix epoch whatever the zone the process runs in
+    let mut zones_done = vec![];
+    {
+        use crate::proc::{free_port, ServerProc, Source, Written, BASE_SEED_HEX};
+        let pk = crypto::public_key(&crypto::unhex(BASE_SEED_HEX).try_into().unwrap());
+        let mut zones = vec!["UTC", "EST5EDT", "JST-9", "<+0545>-5:45"];
+        if std::path::Path::new("/usr/share/zoneinfo/America/New_York").exists() {
+            zones.push("America/New_York");
+        }
+        if std::path::Path::new("/usr/share/zoneinfo/Australia/Lord_Howe").exists() {
+            zones.push("Australia/Lord_Howe");
+        }
+        let now_us = || std::time::SystemTime::now().duration_since(std::time::UNIX_EPOCH).unwrap().as_micros() as u64;
+        for tz in zones {
+            let mut served = false;
+            for _attempt in 0..3 {
+                let port = free_port();
+                let mut w = Written::base(port);
+                w.set("num_workers", "1");
+                let mut sp = ServerProc::start(&w, Source::File, &[("TZ".to_string(), tz.to_string())])?;
+                sp.wait_started(1, std::time::Duration::from_secs(10));
+                if sp.try_status().is_some() {
+                    sp.kill();
+                    continue; // port taken meanwhile: another port
+                }
+                let addr: std::net::SocketAddr = format!("127.0.0.1:{}", port).parse().unwrap();
+                for v in [Version::Classic, Version::Ietf13] {
+                    let sock = std::net::UdpSocket::bind("127.0.0.1:0").map_err(|e| e.to_string())?;
+                    sock.set_read_timeout(Some(std::time::Duration::from_secs(3))).unwrap();
+                    let req = rtref::responder::std_request(v, &crate::inproc::nonce(0xc11_7a + zones_done.len() as u64, v.nonce_len()));
+                    let t_sent = now_us();
+                    let _ = sock.send_to(&req, addr);
+                    let mut buf = [0u8; 4096];
+                    let got = sock.recv_from(&mut buf);
+                    let t_recv = now_us();
+                    evals.fetch_add(1, Relaxed);
+                    nontrivial.fetch_add(1, Relaxed);
+                    let detail = |m: String| json!({"kind":"process-tz","tz":tz,"version":v.name(),"t_sent_us":t_sent,"t_recv_us":t_recv,"message":m});
+                    match got {
+                        Err(e) => ctx.violation("no-reply", "server-process", &format!("{}/TZ", v.name()), detail(format!("no reply: {}", e))),
+                        Ok((l, _)) => match rtref::verifier::authentic(&buf[..l], &req, v, Some(&pk), rtref::verifier::SERVER_VIEW) {
+                            Err(c) => ctx.violation("reply-not-authentic", c, &format!("{}/TZ", v.name()), detail(c.to_string())),
+                            Ok(info) => {
+                                let unit_us: u64 = if v == Version::Classic { 1 } else { 1_000_000 };
+                                let lo = info.midp.saturating_mul(unit_us);
+                                let hi = (info.midp + 1).saturating_mul(unit_us);
+                                if !(lo <= t_recv && hi > t_sent) {
+                                    ctx.violation("midp-not-clock", "server-process", &format!("{}/local-time-zone", v.name()), detail(format!("midpoint {} (x{} us) outside the bracket [request sent {}, reply received {}] with TZ={}", info.midp, unit_us, t_sent, t_recv, tz)));
+                                }
+                            }
+                        },
+                    }
+                }
+                sp.kill();
+                served = true;
+                break;
+            }
+            if !served {
+                return Err(format!("real server did not start under TZ={}", tz));
+            }
+            zones_done.push(tz);
+        }
+    }
+    ctx.cov("server_process_time_zones", json!(zones_done));
     ctx.cov("evaluations", json!(evals.load(Relaxed)));
     ctx.cov("distinct_nontrivial", json!(nontrivial.load(Relaxed)));
     ctx.cov("live_replies_bracketed", json!(live.load(Relaxed)));
     ctx.cov("exhaustive", json!(true));
-    ctx.cov("rule", json!("grid: make_srep(version, clock, root) for clock seconds {0,1,59,60,1e9,2^31-1,2^31,2^32-1,2^32,year 2200,year 9999,2^40} x nanos {0,1,999,1000,1001,499999999,999999,1000000,999999000,999999999} (thorough: + every second of 2024-02-29 x {0,999999999}) x both versions, second SREP on a key that already signed one: MIDP == floor(clock / unit) (microseconds classic, seconds IETF), RADI == 5 s in that unit, ROOT echoed, IETF VER/VERS present, SIG verifies under the online key with the response context. Live: every authentic reply of all C09 event histories of the tier's depth (batch_size 1, 2 and 3), plus 156 histories per batch size that end with a request arriving INSIDE a wake-up (at the polled / collected / sent hook point, after 0..2 queued requests), is bracketed per reply by harness clock readings taken just before its request was sent (for a mid-step arrival: at the hook point) and when the reply was drained (after the step that produced it)."));
+    ctx.cov("rule", json!("grid: make_srep(version, clock, root) for clock seconds {0,1,59,60,1e9,2^31-1,2^31,2^32-1,2^32,year 2200,year 9999,2^40} x nanos {0,1,999,1000,1001,499999999,999999,1000000,999999000,999999999} (thorough: + every second of 2024-02-29 x {0,999999999}) x both versions, second SREP on a key that already signed one: MIDP == floor(clock / unit) (microseconds classic, seconds IETF), RADI == 5 s in that unit, ROOT echoed, IETF VER/VERS present, SIG verifies under the online key with the response context. Live: every authentic reply of all C09 event histories of the tier's depth (batch_size 1, 2 and 3), plus 156 histories per batch size that end with a request arriving INSIDE a wake-up (at the polled / collected / sent hook point, after 0..2 queued requests), is bracketed per reply by harness clock readings taken just before its request was sent (for a mid-step arrival: at the hook point) and when the reply was drained (after the step that produced it). Process: the real server binary started under TZ in {UTC, EST5EDT, JST-9, <+0545>-5:45, America/New_York, Australia/Lord_Howe}: one reply per protocol, same bracket."));
     ctx.sample(json!({"kind":"grid","version":"classic","secs":2147483648u64,"nanos":999999999}));
     ctx.sample(json!({"kind":"live","version":"ietf13","events":["I0","C1","step","I1"]}));
     ctx.assume("the harness and the in-process server read the same system clock; the clock does not step backwards during a history");
